@@ -25,8 +25,8 @@ from simkit.fs import SimFS  # noqa: E402
 from simkit.loop import SimDeadlock, SimLoop, SimStepCap  # noqa: E402
 from simkit.rng import Rng, digest  # noqa: E402
 from workload import gen as G  # noqa: E402
-from workload.runtime import (NS_KEY, StaticSimLoader, build_data, canon_analysis,  # noqa: E402
-                              outcome, outcome_async)
+from workload.runtime import (NS_KEY, StaticSimLoader, add_sim_filters, build_data,  # noqa: E402
+                              canon_analysis, outcome, outcome_async)
 
 import liquid  # noqa: E402
 from liquid import (BoundTemplate, CachingChoiceLoader, CachingDictLoader,  # noqa: E402
@@ -112,7 +112,8 @@ class C01:
         templates = {}
         for i, nm in enumerate(pnames):
             tg = G.TreeGen(rng, recipe["flags"], recipe["extra"], partials=pnames[i + 1:], drops=True,
-                           template_comments=recipe["template_comments"], budget=rng.randint(2, 7), max_depth=1)
+                           template_comments=recipe["template_comments"], budget=rng.randint(2, 7), max_depth=1,
+                           simfilters=True)
             templates[nm] = tg.template()
         top = None
         if recipe["extra"] and rng.chance(0.5):
@@ -122,7 +123,7 @@ class C01:
         for _ in range(rng.randint(1, 3)):
             tg = G.TreeGen(rng, recipe["flags"], recipe["extra"], partials=pnames, drops=True,
                            template_comments=recipe["template_comments"], budget=rng.randint(4, 24),
-                           max_depth=rng.randint(1, 3))
+                           max_depth=rng.randint(1, 3), simfilters=True)
             mains.append(tg.template())
         datas = [G.gen_data(rng, drops=True) for _ in range(rng.randint(1, 3))]
         for d in datas:
@@ -151,6 +152,15 @@ class C01:
             return op
 
         clients = [{"id": c, "ops": [gen_op() for _ in range(rng.randint(1, 5))]} for c in range(rng.randint(1, 6))]
+        if len(clients) > 1 and len(datas) > 1 and rng.chance(0.35):
+            # swarm bias: every client hammers ONE template object with different data at the same time
+            m = rng.randrange(len(mains))
+            for ci, c in enumerate(clients):
+                for op in c["ops"]:
+                    if op["op"] == "render":
+                        op.pop("name", None), op.pop("ns", None), op.pop("globals", None)
+                        op["main"] = m
+                        op["data"] = (ci + op["uid"]) % len(datas)
         return {
             "pkg": "lvc01_%x" % (run_seed & 0xFFFFFFFF),
             "recipe": recipe, "loader": kind, "ns_key": NS_KEY if rng.chance(0.5) else "",
@@ -258,6 +268,8 @@ class C01:
         loop_ref = [None]
         env_s = G.build_env(recipe, self._loader(sc, sources, fs, [None]))
         env_a = G.build_env(recipe, self._loader(sc, sources, fs, loop_ref))
+        add_sim_filters(env_s, [None])
+        add_sim_filters(env_a, loop_ref)
         main_src = [G.render_source(t) for t in sc["mains"]]
         mains_s = [outcome(lambda s=s: env_s.from_string(s, name="main%d" % i)) for i, s in enumerate(main_src)]
         mains_a = [outcome(lambda s=s: env_a.from_string(s, name="main%d" % i)) for i, s in enumerate(main_src)]
